@@ -99,6 +99,7 @@ type State struct {
 	retDirty  bool // the frame popped last had written to memory older than itself
 	recycled  []int // backing arrays handed back to a sync.Pool
 	clockReads int
+	lockCounts map[string]int // immutable: replaced on update
 }
 
 func newState() *State {
@@ -136,6 +137,7 @@ func (s *State) clone() *State {
 		retDirty:  s.retDirty,
 		recycled:  s.recycled,
 		clockReads: s.clockReads,
+		lockCounts: s.lockCounts,
 	}
 	if s.panicking != nil {
 		pi := *s.panicking
@@ -278,7 +280,8 @@ type fxCount struct {
 }
 
 func (s *State) effects() fxCount {
-	return fxCount{len(s.draws), len(s.picks), len(s.covers), len(s.locks), len(s.events), len(s.obs), s.asserts, s.csections, len(s.accesses), s.lastMono, s.panicking != nil}
+	// the access log is not a side effect for merging purposes: merged sub-paths contribute the union of their records
+	return fxCount{len(s.draws), len(s.picks), len(s.covers), len(s.locks), len(s.events), len(s.obs), s.asserts, s.csections, 0, s.lastMono, s.panicking != nil}
 }
 
 func (s *State) top() *Frame { return s.stack[len(s.stack)-1] }
